@@ -160,3 +160,37 @@ func TestSemantics(t *testing.T) {
 		t.Fatal("clone is not isolated")
 	}
 }
+
+func TestFingerprintFollowsCanon(t *testing.T) {
+	ctx := context.Background()
+	mk := func(qs ...string) *State {
+		st := NewState([]string{"d"}, nil)
+		c := NewProc(st).Connect("d")
+		for _, q := range qs {
+			if err := c.Exec(ctx, q); err != nil {
+				t.Fatal(err)
+			}
+		}
+		return st
+	}
+	base := "CREATE TABLE settings (fingerprint UInt64, type String, name String, value String, inserted_at DateTime64(9, 'UTC')) ENGINE = ReplacingMergeTree(inserted_at) ORDER BY fingerprint"
+	a := mk(base, "INSERT INTO settings (fingerprint, type, name, value, inserted_at) VALUES (1, 'rotate', 'a', 'x', NOW())",
+		"INSERT INTO settings (fingerprint, type, name, value, inserted_at) VALUES (2, 'rotate', 'b', 'y', NOW())")
+	b := mk(base, "INSERT INTO settings (fingerprint, type, name, value, inserted_at) VALUES (2, 'rotate', 'b', 'old', NOW())",
+		"INSERT INTO settings (fingerprint, type, name, value, inserted_at) VALUES (1, 'rotate', 'a', 'x', NOW())",
+		"INSERT INTO settings (fingerprint, type, name, value, inserted_at) VALUES (2, 'rotate', 'b', 'y', NOW())")
+	if a.Canon() != b.Canon() || a.Fingerprint() != b.Fingerprint() {
+		t.Fatalf("same rows in another order / after replacement must be the same state\n%s\n--\n%s", a.Canon(), b.Canon())
+	}
+	c := mk(base, "INSERT INTO settings (fingerprint, type, name, value, inserted_at) VALUES (1, 'rotate', 'a', 'x', NOW())")
+	if a.Canon() == c.Canon() || a.Fingerprint() == c.Fingerprint() {
+		t.Fatal("different rows must differ")
+	}
+	d := a.Clone()
+	if err := NewProc(d).Connect("d").Exec(ctx, "ALTER TABLE settings MODIFY TTL inserted_at + toIntervalDay(1)"); err != nil {
+		t.Fatal(err)
+	}
+	if d.Fingerprint() == a.Fingerprint() || d.Canon() == a.Canon() {
+		t.Fatal("schema change must change the state")
+	}
+}
